@@ -1,5 +1,7 @@
 #[path = "../stree.rs"]
 mod stree;
+#[path = "../typed.rs"]
+mod typed;
 use stree::*;
 
 fn main() {
@@ -16,7 +18,22 @@ fn main() {
         }
         match serde_saphyr::from_str::<SNode>(&d) {
             Ok(t) => {
+                let typed_on = std::env::var("TYPED").is_ok();
                 for r in collect(&t) {
+                    if typed_on {
+                        for w in typed::WANTS_ALL {
+                            let res = typed::run(&d, &t, &r.path, *w, serde_saphyr::Options::default());
+                            match res {
+                                Ok(()) => {}
+                                Err(e) => {
+                                    let l = e.locations();
+                                    let same = l.map(|l| l.reference_location == r.referenced && l.defined_location == r.defined);
+                                    println!("     {:?} want {:<22} {} same={:?} {:?} | {}", r.path, w.name(), vcore::errs::kind(&e), same,
+                                      l.map(|l| (loc_str(&l.reference_location), loc_str(&l.defined_location))), e.without_snippet().to_string().replace('\n', " / "));
+                                }
+                            }
+                        }
+                    }
                     println!(
                         "  {:?} key={} leaf={:?} ref={} def={}",
                         r.path,
